@@ -146,6 +146,7 @@ class Engine:
         self.typeids = {}
         self.budget_s = 1e9
         self.slowlog = None
+        self.presplit = True   # True: small-range vf_int inputs are case-split up front instead of staying symbolic
         from . import externs as ex
         ex.install(self)
 
@@ -886,7 +887,7 @@ class Engine:
                 return r
         return None
 
-    def fork_on_values(self, st, term, what, limit=64):
+    def fork_on_values(self, st, term, what, limit=256):
         """Concretise a symbolic term by case split; current instruction is re-executed in each child."""
         vals = []
         cons = list(st.pc)
